@@ -22,26 +22,26 @@ CLAIMED = {
     "C05": ("bounded symbolic model checking of the walkers: every visit's Name/Branch/Row/Level/Path/HasChild equals the reference facts in text-output order for every forest up to the bound with opaque names and branch strings; the callback fails / the consumer breaks at a symbolic visit index and z3 decides that nothing is visited afterwards and the error is returned unchanged; the iterator forms run the real iter.Pull2 code",
             "trusted: Parse contract, path.Join contract on single-element names, iter.newcoro/coroswitch as coroutine hand-off; bound = number of nodes",
             "DESIGN.md 5 C05"),
-    "C13": ("bounded symbolic model checking over call histories: every sequence of Add / second NewRoot / unrelated From-Markdown call / From-Root operation up to the length bound, with the package-level index counter as ordinary global state; z3 decides that each result equals the reference rendering of the tree's current model and that repeating an operation repeats its result",
-            "sequential histories only (the concurrent-use clause needs a memory model and is outside the claim); bound = history length, two live trees",
+    "C13": ("bounded symbolic model checking over call histories: every sequence of Add / second NewRoot / unrelated From-Markdown call / From-Root operation up to the length bound, with the package-level index counter as ordinary global state; z3 decides that each result equals the reference rendering of the tree's current model and that repeating an operation repeats its result; a second family runs two library calls concurrently in interpreted goroutines and decides result equality with the calls run alone plus absence of happens-before races",
+            "sequential histories: bound = history length, two live trees; options handed over as two slices of one backing array. Concurrent use: two simultaneous library calls (8 kinds each) on inputs of their own under write-yield / LIFO / pseudo-random schedules, real bufio.Scanner and a model of sync.Pool: results equal the calls run alone, and a happens-before (vector-clock) detector over the interpreted execution finds no unsynchronised conflicting accesses in library code; more than two concurrent calls and mkdir/verify as concurrent steps are outside",
             "DESIGN.md 5 C13"),
     "C14": ("bounded symbolic model checking with the fault position as a symbolic variable: the reader fails after k rows / the writer refuses write j (k, j solver-chosen) on every forest up to the bound and every sequential output mode of both API families; z3 decides that the reader's error is returned (errors.Is) and that nil is returned only if the writer accepted the complete output",
-            "trusted: bufio.Scanner/bufio.Writer contracts, encoder stubs perform one Write per Encode (the real yaml/toml encoders may split writes; covered only by native replays); short writes with nil error not modelled; massive mode under C11",
+            "trusted: bufio.Scanner/bufio.Writer contracts, encoder stubs perform one Write per Encode (the real yaml/toml encoders may split writes; covered only by native replays); short writes with nil error not modelled; massive-mode reader failures (k = 0 included, FIFO/LIFO/random schedules) and writer failures are part of this check; the failure value is solver-chosen among a fresh error, context.Canceled and context.DeadlineExceeded",
             "DESIGN.md 5 C14"),
     "C12": ("bounded symbolic model checking at byte level: every document of 1-2 rows of a few arbitrary bytes is run through the real parser and every sequential entry point; an interpreted panic or an exceeded step budget on any feasible path is a violation, and z3 decides that blank-only input gives empty output and nil; panic-freedom is also built into every harness of every other property",
             "bound on row count/length is small (byte-level path explosion); over-long lines and massive mode are outside this check (C14, C10/C11); file system is the harness model",
             "DESIGN.md 5 C12"),
     "C15": ("bounded symbolic model checking of the notation family in two layers: the L-parse lemmas run the real Parser.Parse from every state an accepted prefix can leave, on rows whose name bytes are symbolic, and z3 decides that every spelling of a row yields the same (depth, text) resp. the right error class; an end-to-end harness (real parser + real tree code, no stub) compares the canonical spelling with every member of the notation family on small forests",
-            "CRLF / final newline are bufio.Scanner's contract (trusted); heading names assumed free of surrounding blanks; name length <= 3 bytes in the lemmas; outputs other than text rely on C01-C05 (same generator)",
+            "CRLF / final newline: the real bufio.Scanner, ScanLines and strings.Reader are executed from std's SSA (L-scan lemma on documents of <= 7 arbitrary bytes; end-to-end jobs with LF/CRLF per row, missing last terminator, trailing empty lines, also through massive mode); heading names assumed free of surrounding blanks; name length <= 3 bytes in the lemmas; outputs other than text rely on C01-C05 (same generator)",
             "DESIGN.md 5 C15, 4.2"),
     "C06": ("bounded symbolic model checking of the mkdir code against a file-system model executed symbolically next to it: for every forest up to the bound, opaque names and extensions, every pre-state of the family and the modelled OS refusals, z3 decides that the entries created are exactly the node paths with kinds by the file rule, that nothing else changes, that a pre-existing root gives ErrExistPath with the state unchanged and that a refused operation is never reported as success",
-            "the file-system model (harness/gtree/vfs_sym.go) is the trusted reading of os.Stat/MkdirAll/Create; path contracts; the native replays run the same harness against the real OS in a jail",
+            "the file-system model (harness/gtree/vfs_sym.go) is the trusted reading of os.Stat/MkdirAll/Create; path contracts; the native replays run the same harness against the real OS in a jail; forests with distinct roots, and (C06.dup) forests whose root names may coincide",
             "DESIGN.md 5 C06"),
     "C07": ("bounded symbolic model checking at byte level: every name byte of a 2-3 node tree is a solver variable, the real path.Join/Clean, filepath.Join, fs.ValidPath and validation code is executed on them, and z3 decides that every path handed to a mutating os call is lexically inside the target, that a name which is not a single valid path element is rejected, and that nothing is created in that case, on all five mkdir/dry-run routes",
             "lexical confinement (symlinks outside the claim); ASCII names of <= 4 bytes, <= 3 nodes; os calls are recorders",
             "DESIGN.md 5 C07"),
     "C08": ("bounded symbolic model checking of the verifier against the file-system model: for every forest up to the bound and every directory state of the family (present subsets, files, extras, strict or not) z3 decides verdict, soundness and exactness of both reported lists for the first differing root, the public error text and read-only-ness; and that a tree just made by the real Mkdir code verifies strictly",
-            "file-system model incl. the fs.WalkDir contract is trusted (exercised natively); bound N=3 for the state-space job",
+            "file-system model incl. the fs.WalkDir / filepath.WalkDir contracts is trusted (exercised natively); the first root may be a symbolic link to a directory (Stat-following operations see a directory, an Lstat-based walk does not descend); bound N=3 for the state-space job",
             "DESIGN.md 5 C08"),
     "C09": ("bounded symbolic model checking of the three dry-run routes against the real mkdir code in one harness: no mutation, report text equals tree text plus per-root counts, and the counts equal what the real Mkdir then creates in the same model; names-based rejection equivalence is decided at byte level under C07",
             "file-system model, color/bufio stubs; massive mode under C10",
@@ -49,15 +49,22 @@ CLAIMED = {
     "C10": ("bounded symbolic model checking of the real pipeline code next to the real simple-mode code on the same symbolic documents: goroutines, channels, select, WaitGroup, Mutex, context and errgroup are interpreted under a deterministic cooperative scheduler (several policies), and z3 decides same accept/reject decision and equality of results up to the order of roots (whole per-root blocks) for text, JSON, dry-run, walk, mkdir and verify; a byte-level job decides the unit-learning difference, another the pre-existing-root case",
             "the input and configuration quantifiers are decided; the schedule quantifier only over the explored policies (each a legal Go schedule) - equality under every schedule is NOT claimed; no data-race detection; two known findings (mixed indentation units per block, partial mkdir when a root exists) are listed in known_findings.txt",
             "DESIGN.md 5 C10, 3.6"),
-    "C11": ("bounded symbolic model checking of termination, error reporting and goroutine leaks of the real pipeline under the engine's scheduler: failing subsets of blocks in every stage, a failing reader, and cancellation of the caller's context at a symbolic synchronisation event; a blocked main goroutine with nothing runnable is reported as deadlock, and after the return every runnable goroutine is run to quiescence and survivors are counted",
-            "schedules: FIFO/LIFO x first/last ready select case only; the data-race clause of the property is NOT decidable with this technique (no memory model) and is outside the claim",
+    "C11": ("bounded symbolic model checking of termination, error reporting and goroutine leaks of the real pipeline under the engine's scheduler: failing subsets of blocks in every stage, a failing reader, and cancellation of the caller's context at a symbolic synchronisation event; a blocked main goroutine with nothing runnable is reported as deadlock, after the return every runnable goroutine is run to quiescence and survivors are counted, and a vector-clock happens-before detector checks every load/store/map access/append of library code for unsynchronised conflicting accesses",
+            "schedules: FIFO/LIFO x first/last ready select case and 4-8 pseudo-random ones only (each a legal Go schedule; all schedules are NOT claimed). Data-race clause: every job runs with a happens-before (vector-clock, FastTrack-style) detector over the interpreted execution -- go, channels, select, Mutex, WaitGroup, errgroup, context, sync/atomic, sync.Pool are the synchronisation edges; a pair of unordered conflicting accesses in library code on an explored schedule is reported as race@<op> and confirmed on a -race build of the native harness (model, then the amplified scenario VerifRaceStress); sequential consistency is assumed for the values read (no weak-memory effects), memory touched only inside host-level stubs (encoders, color) is not tracked",
             "DESIGN.md 5 C11, 3.6"),
     "C16": ("bounded symbolic model checking of the CLI's flag-to-option wiring and exit-status logic: the three action functions and main() are executed with every flag value symbolic; the options they pass are applied by the real gtree.newConfig and z3 decides that the resulting configuration, writer and reader are what the flags denote, that every failure surfaces as a non-zero ExitCoder and success as nil, and that main exits non-zero exactly when App.Run failed",
-            "library entry points, urfave/cli's parser, os.Open/Exit and the standard streams are stubs (contracts listed in the evidence); what the library does with the options is C01-C15; models of these jobs (witnesses and counterexamples) are replayed by a concrete CLI-vs-library differential run (engine/clireplay.go + replay/cliref: stdout, exit status, file-system snapshot, also with stdout=/dev/full)",
+            "library entry points, urfave/cli's parser, os.Open/Exit and the standard streams are stubs (contracts listed in the evidence); what the library does with the options is C01-C15; models of these jobs (witnesses and counterexamples) are replayed by a concrete CLI-vs-library differential run (engine/clireplay.go + replay/cliref: stdout, exit status, file-system snapshot, also with stdout=/dev/full); the App.Run stub's contract (usage failure => error or non-zero exit) is validated on the real binary for every class of usage failure (stray argument, unknown flag, unknown sub-command, unknown help topic, missing flag value, invalid duration) on every run -- that part is a concrete contract validation, not a solver verdict",
             "DESIGN.md 5 C16"),
     "C17": ("bounded symbolic model checking of a two-variant relational property: the tinywasm file set is regenerated from /repo as a second package of the same SSA program, both Output implementations run on the same symbolic documents and options, and z3 decides equal accept/reject decisions and equal output (text with opaque branch strings, JSON record, dry-run report)",
             "the tinywasm constraint is emulated by file selection (same files the Go tool would select); Parse contract; encoder stubs; bound = rows",
             "DESIGN.md 5 C17"),
+}
+
+TECH_EXTRA = {
+    "C11": "; goroutines interpreted under deterministic schedule policies; happens-before (vector-clock) data-race detection on the explored paths, confirmed by the Go race detector on the native harness",
+    "C13": "; the concurrent-use family runs two calls in interpreted goroutines with happens-before (vector-clock) data-race detection, confirmed by a native stress scenario / the Go race detector",
+    "C10": "; goroutines interpreted under deterministic schedule policies",
+    "C16": "; models replayed by a concrete CLI-vs-library differential run, which also validates the cli-library stub's contract on usage failures",
 }
 
 NOT_YET = "check under construction in this session (engine built first; see DESIGN.md 5)"
@@ -79,7 +86,7 @@ def main():
                 "engine": "gosym",
                 "level_claimed": {"category": "model_checking", "text": text, "design_ref": ref},
                 "level_note": note,
-                "technique": TECH,
+                "technique": TECH + TECH_EXTRA.get(pid, ""),
             })
         else:
             na.append({"property_id": pid, "reason": NOT_YET})
